@@ -12,6 +12,10 @@ RULES = {
     "C06.2": "scan completeness (contradiction rule): inside the per-file unit loop of startup_chore, a unit that cannot be parsed must be skipped (advance to the next unit), never end "
              "the scan of the file: the allocator hands out units whether or not they are ever written, so an unreadable unit can precede live ones. Every exit edge of the unit loop "
              "other than the loop condition is a violation",
+    "C06.3": "the entry scan of a recovered unit stays inside the unit (loop bound): recovery re-creates every block with limit = DEFAULT_BLOCK_SIZE and visits every unit of the file as "
+             "a block of its own, so the loop that walks the entries of one unit (the loop around Block::read on the per-unit stub) must leave through a test of the very offset it "
+             "reads at against DEFAULT_BLOCK_SIZE before it can iterate again. Without that bound a unit that is filled to its last byte runs on into the next unit, whose entries are "
+             "then recovered twice (once as the tail of this block, once as their own block) or attributed to a foreign topic",
 }
 
 
@@ -141,12 +145,56 @@ def check_scan(ctx, facts):
     ctx.floor("C06.2", "blocks in the unit loop", len(loop), 50)
 
 
+def check_entry_scan_bound(ctx, facts):
+    b = facts.body("walrus::Walrus::startup_chore")
+    F = "walrus::Walrus::startup_chore"
+    D = facts.const_val("config::DEFAULT_BLOCK_SIZE")
+    n = 0
+    for c in b.calls(re.compile(r"block::Block::read$")):
+        hb, L = c.bb, None
+        for _ in range(16):
+            L = b.natural_loop(hb)
+            if L and c.bb in L:
+                break
+            L = None
+            if b.idom.get(hb) is None or b.idom[hb] == hb:
+                break
+            hb = b.idom[hb]
+        if L is None:
+            continue
+        n += 1
+        off = op_local(b.resolve_copy(c.node["args"][1]))
+        back_src = [u for u in L if hb in b.succ[u]]
+        exits = set(b.loop_exits(L))
+        bound = None
+        for T in all_tests(b):
+            if T.kind != "cmp" or T.bb not in L or T.op not in ("Ge", "Gt", "Lt", "Le"):
+                continue
+            la, lb = op_local(b.resolve_copy(T.a)), op_local(b.resolve_copy(T.b))
+            ca = fmtfeat.const_eval(strip_refs(expr(b, T.a))) if la is None else None
+            cb = fmtfeat.const_eval(strip_refs(expr(b, T.b))) if lb is None else None
+            if not ((la == off and cb == D) or (lb == off and ca == D)):
+                continue
+            if not (T.true_edge in exits or T.false_edge in exits):
+                continue
+            if all(b.dominates(T.bb, u) for u in back_src):
+                bound = T
+        if bound is not None:
+            ctx.ok("C06.3", F, "the entry scan leaves the unit when its read offset reaches DEFAULT_BLOCK_SIZE", b.relfile, b.term(bound.bb).get("line"))
+        else:
+            ctx.violate("C06.3", F, "entry-scan-not-bounded-by-unit", b.relfile, c.line,
+                        "the loop that scans the entries of one recovered unit can iterate again without having compared its read offset with DEFAULT_BLOCK_SIZE: a unit filled to its "
+                        "last byte is scanned on into the following unit, whose entries are then recovered twice or under the wrong topic")
+    ctx.floor("C06.3", "entry-scan loops in startup_chore", n, 1)
+
+
 def run(ctx):
     for k, v in RULES.items():
         ctx.rule(k, v)
     facts = common.mir(ctx, "walrus_rust")
     check_layout(ctx, facts)
     check_scan(ctx, facts)
+    check_entry_scan_bound(ctx, facts)
     ctx.assume("NOT decided: cursor translation across recovery's synthetic block ids, counts after restart, file ordering under clock regression (names come from wall-clock milliseconds)")
     return {
         "explanation": "sibling agreement between the allocator's block layout and the recovery scan's stride/limit (symbolic expressions on MIR), and a loop-exit rule on the natural loop "
